@@ -124,10 +124,10 @@ func init() {
 	})
 	addProp(&propSpec{
 		ID: "C07", Engine: "vmm", Level: "exploration",
-		Subs: []subCheck{{Name: "C07", QuickRuns: 1000000000, QuickMs: 20000, ThoroughRuns: 1000000000, ThoroughMs: 480000}},
-		Rule: "one evaluation = one seeded history (up to 60 requests) of EarlyReserveRegion / MapRegion / IdentityMapRegion from five simulated boot-time subsystems, with sizes 0, 1, page+-1, many pages, everything-left, left+1, within a page of 2^64, and a large first reservation that brings the cursor close to exhaustion; the map seam records every (page, frame, flags) call and fails at a seeded call. Every grant is checked against all earlier grants; every refusal must leave the cursor where it was. Non-trivial = at least 3 requests; distinct = hash of (final cursor, request count, refusals).",
+		Subs: []subCheck{{Name: "C07", QuickRuns: 1000000000, QuickMs: 20000, ThoroughRuns: 1000000000, ThoroughMs: 480000}, {Name: "C07I", QuickRuns: 1000000000, QuickMs: 10000, ThoroughRuns: 1000000000, ThoroughMs: 240000}},
+		Rule: "C07I: reservations before and after the real vmm.Init on the simulated MMU (C05's boot stage plus reserved-but-unmapped regions): Init never moves the cursor up and every later reservation lies below all earlier ones. C07: one evaluation = one seeded history (up to 60 requests) of EarlyReserveRegion / MapRegion / IdentityMapRegion from five simulated boot-time subsystems, with sizes 0, 1, page+-1, many pages, everything-left, left+1, within a page of 2^64, and a large first reservation that brings the cursor close to exhaustion; the map seam records every (page, frame, flags) call and fails at a seeded call. Every grant is checked against all earlier grants; every refusal must leave the cursor where it was. Non-trivial = at least 3 requests; distinct = hash of (final cursor, request count, refusals).",
 		Assume:   []string{"the map seam is a recorder here; region mapping through the real Map on the simulated MMU is part of C04", "a fitting request that is refused is counted (probe) but not reported: the statement only constrains successful reservations and non-fitting requests"},
-		Required: []string{"c07.reserved", "c07.refused_not_fitting", "c07.mapregion_refused", "c07.region_checked", "c07.map_fail_propagated", "c07.size_near_2^64"},
+		Required: []string{"c07.reserved_after_init", "c07.init_with_unmapped_reservation", "c07.init_succeeded_between_reservations", "c07.reserved", "c07.refused_not_fitting", "c07.mapregion_refused", "c07.region_checked", "c07.map_fail_propagated", "c07.size_near_2^64"},
 	})
 	addProp(&propSpec{
 		ID: "C05", Engine: "vmm", Level: "exploration",
